@@ -283,7 +283,7 @@ class FakeSock:
         self.timeout = t
 
     def setblocking(self, b):
-        pass
+        self.timeout = None if b else 0.0
 
     def setsockopt(self, *a):
         pass
@@ -358,6 +358,9 @@ class FakeSock:
             return d
         if self.conn.closed:
             return b''
+        if self.timeout is None:
+            # a blocking socket on which no timeout was ever set: against a peer that has gone quiet this read never returns (seed C09-8)
+            raise HarnessHang('recv() on a socket without a timeout while the peer is silent: the read would block for ever')
         self.net.timeouts += 1
         raise real_socket.timeout('timed out')
 
